@@ -2,6 +2,7 @@
 
 Workload only - the deciding oracle is monitors.rangemon.RangeMonitor (M-range), which judges
 every Range/DecimalRange constructor and validate() call from its own arguments."""
+import decimal
 import itertools
 from decimal import Decimal
 
@@ -12,7 +13,7 @@ RULE = (
     "descriptions generated from the documented grammar (1-4 non-overlapping items, every limit spelling: decimal, "
     "0x/0X hex in both letter cases, minus sign, both quote styles, escapes, symbolic names in three casings; each of "
     "the separators '...', ':' and the one-character ellipsis chosen per item; random blanks) probed with every finite "
-    "limit, its +-1 neighbours (decimal: +- one unit in the next digit), far values and random values; plus the "
+    "limit, its +-1 neighbours (decimal: +- one unit in the next digit; for a third of the decimal descriptions also +-1e-33 as text, and whole numbers of 29 and 31 digits as int, text and Decimal), far values and random values; plus the "
     "exhaustive sweep of all 1-2 item descriptions with limits in {-2..2, none} x values -4..4 (Range) and the same "
     "limits written as decimals x values in steps of 0.5 (DecimalRange); plus all pairs of the 33 ASCII punctuation "
     "characters and the blank as quoted limits, in every quoted spelling (both quote styles, backslash escapes, \\x escapes) x "
@@ -330,6 +331,32 @@ def run(ctx):
                 r.validate("value", str(v) if rng.random() < 0.3 else v)
             except ranges.errors.RangeValueError:
                 pass
+        if i % 3 == 0:
+            # values a hair's breadth (1e-33) beside a limit, handed over as text: more significant digits than the
+            # arithmetic context's default precision holds
+            with decimal.localcontext() as high:
+                high.prec = 200
+                hair = Decimal(1).scaleb(-33)
+                close = [format(v + sign * hair, "f") for item in items for v in item if v is not None for sign in (1, -1)]
+            for text in close:
+                try:
+                    r.validate("value", text)
+                except ranges.errors.RangeValueError:
+                    pass
+            ctx.count("decimal-probes.with-more-than-28-significant-digits", len(close))
+    if ctx.mine(0):
+        # whole numbers beyond 28 digits as int and as text, next to a limit of 29 and 31 digits
+        for description, base in (("...10000000000000000000000000000", 10**28), ("-1000000000000000000000000000000...1000000000000000000000000000000", 10**30)):
+            try:
+                r = ranges.DecimalRange(description)
+            except Exception:
+                continue
+            for v in (base - 1, base, base + 1, -base - 1, -base, -base + 1):
+                for value in (v, str(v), Decimal(v)):
+                    try:
+                        r.validate("value", value)
+                    except ranges.errors.RangeValueError:
+                        pass
     run_sweep(ctx, ranges, False)
     run_sweep(ctx, ranges, True)
     run_specials(ctx, ranges)
